@@ -269,6 +269,7 @@ namespace {
       // while still under construction; what is printed in the end must not depend on that)
       std::function<void(const ipr::Stmt&)> pause;
       int nesting = 0;
+      bool near_misses_done = false;
       std::mt19937_64 g { 7 };
 
       std::vector<void*> holes;
@@ -283,6 +284,37 @@ namespace {
             auto i = g() % holes.size();
             std::free(holes[i]);
             holes.erase(holes.begin() + static_cast<long>(i));
+         }
+         // near misses of what the programs ask for, asked for first: the sequences of the program's products and sums cut short and
+         // extended, their elements in another order, the qualifiers one at a time and all three, neighbouring array bounds, the
+         // function types with and without their exception specification (no words are interned by these)
+         if (not near_misses_done) {
+            near_misses_done = true;
+            const ipr::Lexicon& cl = lex;
+            auto& pi = lex.get_pointer(lex.int_type());
+            auto& pc = lex.get_pointer(lex.char_type());
+            auto seq = [&](std::initializer_list<const ipr::Type*> ts) {
+               impl::Warehouse<ipr::Type> w;
+               for (auto t : ts) w.push_back(*t);
+               return w;
+            };
+            for (auto w : { seq({ &lex.int_type() }), seq({ &pc }), seq({ &pi }), seq({ &pc, &lex.int_type() }), seq({ &lex.int_type(), &pc, &pi }),
+                            seq({ &pi, &pc }), seq({ &pc, &pi, &pc }), seq({ &lex.int_type(), &lex.int_type() }) }) {
+               auto& p = lex.get_product(w);
+               auto& sm = lex.get_sum(w);
+               lex.get_function(p, lex.void_type());
+               lex.get_function(p, lex.int_type(), sm);
+               lex.get_function(p, lex.void_type(), lex.true_value());
+            }
+            for (auto q : { cl.const_qualifier(), cl.volatile_qualifier(), cl.restrict_qualifier(),
+                            cl.const_qualifier() | cl.volatile_qualifier() | cl.restrict_qualifier() }) {
+               auto& qt = lex.get_qualified(q, lex.int_type());
+               lex.get_array(qt, *lex.make_literal(lex.int_type(), u8"4"));
+               lex.get_qualified(q, pi);
+            }
+            lex.get_array(lex.int_type(), *lex.make_literal(lex.int_type(), u8"4"));
+            lex.get_array(pi, *lex.make_literal(lex.int_type(), u8"3"));
+            lex.get_reference(lex.int_type()); lex.get_rvalue_reference(lex.int_type()); lex.get_pointer(pi); lex.get_pointer(pc);
          }
          for (int k = 0; k < 40 and not edge; ++k) {
             auto s = "noise" + std::to_string(g() % 100000);
@@ -691,6 +723,13 @@ int main(int argc, char** argv)
       if (mode == "sweep") return do_sweep();
       if (mode == "replay") return do_replay();
       if (mode == "replay-render") return do_replay_render();
+   }
+   catch (const std::logic_error& e) {
+      // the library throws logic errors, the harness run-time errors: one that arrives here escaped from a call of the library
+      // where the harness expected none -- recorded like a crash (a terminal event), not as a failure of the harness
+      std::cout.flush();
+      std::cerr << "exception of the library escaped: " << e.what() << "\n";
+      std::abort();
    }
    catch (const std::exception& e) {
       std::cout << "HARNESS-ERROR " << e.what() << "\n";
